@@ -21,6 +21,7 @@ type scalarPool struct {
 	usedInt map[string]bool
 	usedStr map[string]bool
 	emptyOK bool // hand out the empty string once
+	big     bool // 64-bit columns also draw constants of magnitude >= 2^53 that float64 represents exactly
 	inner   string     // name of the pre-generated enum used as a trait type
 	innerV  []*big.Int // its unused values
 }
@@ -80,7 +81,39 @@ func min64(a, b int64) int64 {
 	return b
 }
 
+// bigExact: constants of 64-bit integer traits that a float64 holds exactly while their
+// neighbours +-1 are not representable (a decoder that goes through float64 cannot tell them apart)
+func bigExact(unsigned bool) []*big.Int {
+	p := func(k uint) *big.Int { return new(big.Int).Lsh(bi(1), k) }
+	sub := func(a *big.Int, b int64) *big.Int { return new(big.Int).Sub(a, bi(b)) }
+	add := func(a *big.Int, b int64) *big.Int { return new(big.Int).Add(a, bi(b)) }
+	l := []*big.Int{p(53), add(p(53), 2), p(55), p(60), p(62), sub(p(63), 1024), add(p(60), 256), sub(p(62), 512)}
+	if unsigned {
+		return append(l, p(63), add(p(63), 2048), sub(p(64), 2048), sub(p(64), 4096))
+	}
+	return append(l, new(big.Int).Neg(p(53)), new(big.Int).Neg(p(55)), new(big.Int).Neg(add(p(60), 256)), new(big.Int).Neg(p(63)), new(big.Int).Neg(sub(p(63), 1024)))
+}
+
+func (p *scalarPool) bigScalar(unsigned bool) (string, bool) {
+	if !p.big || p.g.rng.Intn(2) != 0 {
+		return "", false
+	}
+	l := bigExact(unsigned)
+	for _, k := range p.g.rng.Perm(len(l)) {
+		if !p.usedInt[l[k].String()] {
+			p.usedInt[l[k].String()] = true
+			return "i:" + l[k].String(), true
+		}
+	}
+	return "", false
+}
+
 func (p *scalarPool) scalar(ty string, row int) string {
+	if ty == "int" || ty == "time.Duration" || ty == "uint64" {
+		if sc, ok := p.bigScalar(ty == "uint64"); ok {
+			return sc
+		}
+	}
 	switch {
 	case p.inner != "" && ty == p.inner:
 		if len(p.innerV) == 0 {
@@ -156,6 +189,7 @@ type traitShape struct {
 	nConsts     int
 	selfCol     bool // a column whose type is ANOTHER enum of the file, generated by an earlier invocation
 	//                  (it unmarshals itself from JSON and YAML)
+	big         bool // 64-bit integer columns draw constants >= 2^53 that float64 holds exactly
 	sharedNames bool // the types of the file share their trait NAMES (`_Name` on one, `Name` on the other)
 }
 
@@ -251,7 +285,7 @@ func (g *gen) shapedDef(sh traitShape) *Def {
 			}
 		}
 		d.Types = append(d.Types, td)
-		pool := &scalarPool{g: g, usedInt: map[string]bool{}, usedStr: map[string]bool{}, emptyOK: sh.emptyStr,
+		pool := &scalarPool{g: g, usedInt: map[string]bool{}, usedStr: map[string]bool{}, emptyOK: sh.emptyStr, big: sh.big,
 			inner: innerName, innerV: append([]*big.Int{}, innerVals...)}
 		nC := sh.nConsts
 		if nC == 0 {
@@ -537,6 +571,14 @@ func (g *gen) emitC05(defs []*Def, domain bool) {
 									add("n:" + new(big.Int).Add(x, bi(off)).String())
 								}
 								add("s:" + hexOf2(p))
+								// float spellings of an integer constant are no integer documents
+								add("n:" + p + ".0")
+								add("n:" + p + "e0")
+								if x.BitLen() > 53 {
+									for _, off := range []int64{2, -2, 3, 128, -128, 1024} {
+										add("n:" + new(big.Int).Add(x, bi(off)).String())
+									}
+								}
 							}
 						}
 					}
